@@ -303,3 +303,73 @@ Proof.
   - apply (j_k _ _ _ _ _ _ _ _ J).
   - apply (j_cn _ _ _ _ _ _ _ _ J).
 Qed.
+
+(** * Submitted nodes have only completed ancestors (also at the end of the poll) *)
+Section Anc.
+Variables (c : cfg) (g : graph) (p : pin).
+Hypothesis W : WF g.
+
+Definition J3b (t : st) : Prop :=
+  forall x k sc res, In (ESubmit x k sc res) (evs t) -> forall a, reach g a x -> a <> x -> In a (completed t).
+Definition J3bc (a : conf) : Prop := let '(t, _, _, _) := a in J3b t.
+
+Lemma J3b_mono t t' :
+  (forall y, In y (completed t) -> In y (completed t')) ->
+  (forall e, In e (evs t') -> In e (evs t) \/
+     match e with ESubmit x _ _ _ => forall a, reach g a x -> a <> x -> In a (completed t') | _ => True end) ->
+  J3b t -> J3b t'.
+Proof.
+  intros Hc He J x k sc res H a R Hne. destruct (He _ H) as [H'|H']; [|exact (H' a R Hne)].
+  apply Hc. eapply J; eauto.
+Qed.
+
+Lemma J3b_step a b : pstep c g p a b -> J3bc a -> J3bc b.
+Proof.
+  intros St. destruct St as [t Cq I|t D I|t cl ca done x o t' cl' ca' D Q Hin Hnd Hinc I P Hx Cr Nm E
+                            |t a cl ca done I P|t a ca done I P|t x done Hx I|t done I Cr]; unfold J3bc.
+  - apply J3b_mono; auto. intros e [<-|He]; auto.
+  - apply J3b_mono; auto. intros e [<-|He]; auto.
+  - assert (Hlr : x < length (recs t)) by (rewrite (i_len_recs g t I); apply (i_bound g t I); auto).
+    destruct (hr_frame c g t cl ca x o t' cl' ca' Hlr E)
+      as [(Ev & Rs & Ff & Cc & Kk & _)|(RB & -> & -> & Et)].
+    + apply J3b_mono; auto. rewrite Ev. auto.
+    + set (t1 := rec_inc_restarts x (rec_set_status x TIMEDOUT t)) in *.
+      pose proof (execute_record_sets c g x true t1) as ES. rewrite <- Et in ES.
+      destruct (execute_record_evs c g x true t1) as (new & V1 & V2 & _). rewrite <- Et in V1.
+      apply J3b_mono; [apply (er_c1 _ _ _ _ ES)|].
+      intros e He. rewrite V1 in He. apply in_app_iff in He. destruct He as [He|He]; [|left; exact He].
+      right. destruct (V2 _ He) as [->|[r ->]]; auto.
+      intros a R Hne. apply (er_c1 _ _ _ _ ES). change (In a (completed t)).
+      eapply anc_completed; eauto.
+  - apply J3b_mono; auto.
+  - apply J3b_mono; auto.
+  - destruct (stage_node_frame g t x) as (F1 & _ & _ & _ & _ & _ & F7 & _).
+    apply J3b_mono; rewrite ?F1, ?F7; auto.
+  - unfold launch_body_gen. destruct (ready t) as [|x rest] eqn:E; auto.
+    change (canceled (set_ready t rest)) with (canceled t). destruct (canceled t) eqn:Cn.
+    + apply J3b_mono; auto.
+    + set (t1 := set_ready t rest).
+      pose proof (execute_record_sets c g x false t1) as ES.
+      destruct (execute_record_evs c g x false t1) as (new & V1 & V2 & _).
+      apply J3b_mono; [apply (er_c1 _ _ _ _ ES)|].
+      intros e He. rewrite V1 in He. apply in_app_iff in He. destruct He as [He|He]; [|left; exact He].
+      right. destruct (V2 _ He) as [->|[r ->]]; auto.
+      intros a R Hne. apply (er_c1 _ _ _ _ ES). change (In a (completed t)).
+      eapply anc_completed; eauto. right. right. rewrite E. left. reflexivity.
+Qed.
+End Anc.
+
+(** a node submitted in a poll has, at the end of that poll, no failed/cancelled strict ancestor *)
+Theorem poll_no_submit_same c g s p : WF g -> Inv g s -> Thr c s -> valid_pin s p = true ->
+  forall x k sc res, In (ESubmit x k sc res) (evs (fst (poll c g s p))) ->
+  forall u, FC (fst (poll c g s p)) u -> reach g u x -> u = x.
+Proof.
+  intros W I T V x k sc res H u Fu R.
+  pose proof (poll_reach c g p W s I V) as Rp.
+  assert (J0 : J3bc g (conf0 s p)) by (unfold J3bc, conf0, poll_start, J3b; cbn; intros ? ? ? ? []).
+  pose proof (psteps_ind_inv c g p (J3bc g) (J3b_step c g p W) _ _ Rp J0) as J. unfold J3bc in J.
+  destruct (Nat.eq_dec u x) as [E|Hne]; auto. exfalso.
+  pose proof (J x k sc res H u R Hne) as Hc.
+  destruct (poll_Inv c g s p W I T V) as [I1 _].
+  destruct (i_dj_fc g _ I1 u Fu) as [A _]. contradiction.
+Qed.
